@@ -119,6 +119,9 @@ static void prop_solve(Tape &t, Ctx &c) {
         if (!converged) {
             // listed findings: the distributed Gauss-Seidel ignores remote couplings; plain aggregation over-interpolation with stationary iteration
             if (ri == 8 && active >= 2) { if (c.known("F-mpigs")) return; }
+            // CG is only defined for a symmetric preconditioner; SPAI-1 and ILUT are not symmetric (C02 lists the symmetric smoothers),
+            // and on small systems CG + spai1/ilut indeed stalls: listed, since the property claims every combination
+            if (si == 0 && (ri == 4 || ri == 7)) { if (c.known("F-cg-nonsym-smoother")) return; }
             if (si == 7) { c.label("richardson-no-claim"); return; } // stationary iteration: rate clause is C01(d)/C02's, no 100-iteration claim
             if (single_level) { c.label("single-level-no-claim"); return; } // "coarsening x relaxation x solver" combinations are the multigrid ones
             VF_REQUIRE(false, SOLVER[si] << " with " << COARSE[ci] << "/" << RELAX[ri] << " did not reach 1e-8 in 100 iterations on an SPD M-matrix (reported " << resid << " after " << iters << " iterations, " << active << " active ranks)");
